@@ -92,6 +92,9 @@ def builtin_corpus():
         scenario("graceful-rebalance-enabled", 1, "graceful", "connected", [{"id": "ea", "listeners": [1, 0]}], rebalance=True),
         # a 3 s request that entered at the departing node and is served by a survivor's upstream outlasts the 0.8 s grace
         # period: the shutdown runs out of time while draining its proxy, the departure is announced all the same
+        # a live member whose gossip stream port accepts the leave connection and never answers: the shutdown still ends within
+        # its (2 s) grace period, the other peers are told
+        scenario("graceful-stalled-peer", 1, "graceful", "connected", [{"id": "ea", "listeners": [1, 0]}], ghost="stalled", grace_ms=2000),
         scenario("graceful-grace-exhausted", 0, "graceful", "inflight", [{"id": "ea", "listeners": [1]}, {"id": "eb", "listeners": [0]}],
                  delay_ms=3000, grace_ms=800, inflight_at_lost=True),
     ]
@@ -364,7 +367,13 @@ def schedule_of(o):
             after.append(ep)
     # the shuffle of Leave is not observable: the peers that had the node as left the instant Shutdown returned come first
     told_first = told_peers(o)
-    live = "(%s)" % c_strs([p for p in L["live_before"] if p in told_first] + [p for p in L["live_before"] if p not in told_first])
+    order = [p for p in L["live_before"] if p in told_first] + [p for p in L["live_before"] if p not in told_first]
+    if "stalled" in L["live_before"]:
+        # a peer that accepts the leave stream and never answers: whom Leave reaches before the grace period ends depends on
+        # the (unobservable) shuffle; the observed told set is the oracle here - the selection logic itself is compared with
+        # Gossip/Round.v by the leave probe
+        order = [p for p in order if p in told_first]
+    live = "(%s)" % c_strs(order)
     sched = ["StNotReady", "StUpstream"] + ["StExit %s" % cs(e) for e in before] + ["StProxy", "StLeave %s" % live] \
         + ["StExit %s" % cs(e) for e in after] + ["StGossipClose", "StAdmin"]
     return conns, sched, live
